@@ -18,6 +18,7 @@ import (
 	kit "github.com/gittuf/gittuf/internal/verifkit"
 	"github.com/gittuf/gittuf/pkg/githash"
 	"github.com/gittuf/gittuf/pkg/gitinterface"
+	"github.com/gittuf/gittuf/pkg/gitstore"
 	"github.com/gittuf/gittuf/pkg/rsl"
 	"pgregory.net/rapid"
 )
@@ -60,11 +61,12 @@ func TestC17Worker(t *testing.T) {
 	kind := os.Getenv("VERIF_C17_KIND")
 	ids := strings.Split(os.Getenv("VERIF_C17_IDS"), ",")
 	first := os.Getenv("VERIF_C17_FIRST")
-	repo, err := gitinterface.LoadRepository(dir)
+	realRepo, err := gitinterface.LoadRepository(dir)
 	if err != nil {
 		fmt.Println("C17W harness-error", err)
 		return
 	}
+	repo := &c17CountingStorer{Storer: realRepo}
 	// barrier: announce readiness, then wait for the parent's start signal so
 	// that all workers issue their first operation at the same moment
 	if bar := os.Getenv("VERIF_C17_BARRIER"); bar != "" {
@@ -98,15 +100,39 @@ func TestC17Worker(t *testing.T) {
 			err = rsl.NewAnnotationEntry([]githash.Hash{h(first)}, false, c17ProcAnnMsg(w, j)).Commit(repo, false)
 		}
 		if err != nil {
-			fmt.Printf("C17W op=%d kind=%s err=%q\n", j, k, err.Error())
+			fmt.Printf("C17W op=%d kind=%s cf=%d err=%q\n", j, k, repo.failedCommits, err.Error())
 		} else {
-			fmt.Printf("C17W op=%d kind=%s ok\n", j, k)
+			fmt.Printf("C17W op=%d kind=%s cf=%d ok\n", j, k, repo.failedCommits)
 		}
+		repo.failedCommits = 0
 	}
 	fmt.Println("C17W finished")
 }
 
-var c17ProcLine = regexp.MustCompile(`(?m)^C17W op=(\d+) kind=(\w+) (ok|err=.*)$`)
+// c17CountingStorer lets the worker see whether a storage-level commit failed
+// during an operation (another writer won the race for the tip).
+type c17CountingStorer struct {
+	gitstore.Storer
+	failedCommits int
+}
+
+func (c *c17CountingStorer) Commit(treeID githash.Hash, targetRef, message string, sign bool) (githash.Hash, error) {
+	id, err := c.Storer.Commit(treeID, targetRef, message, sign)
+	if err != nil {
+		c.failedCommits++
+	}
+	return id, err
+}
+
+func (c *c17CountingStorer) CommitUsingSpecificKey(treeID githash.Hash, targetRef, message string, key []byte) (githash.Hash, error) {
+	id, err := c.Storer.CommitUsingSpecificKey(treeID, targetRef, message, key)
+	if err != nil {
+		c.failedCommits++
+	}
+	return id, err
+}
+
+var c17ProcLine = regexp.MustCompile(`(?m)^C17W op=(\d+) kind=(\w+) cf=(\d+) (ok|err=.*)$`)
 
 func runC17ProcOnce(t *testing.T, s *kit.Session, c c17ProcCase) *kit.Failure {
 	rsl.VerifResetCache()
@@ -190,6 +216,7 @@ func runC17ProcOnce(t *testing.T, s *kit.Session, c c17ProcCase) *kit.Failure {
 		kind string
 		ok   bool
 		err  string
+		cf   int // storage-level commits that failed during the operation
 	}
 	var results []opRes
 	for w, out := range outs {
@@ -202,7 +229,8 @@ func runC17ProcOnce(t *testing.T, s *kit.Session, c c17ProcCase) *kit.Failure {
 		}
 		for _, m := range ms {
 			j, _ := strconv.Atoi(m[1])
-			results = append(results, opRes{w: w, j: j, kind: m[2], ok: m[3] == "ok", err: m[3]})
+			cf, _ := strconv.Atoi(m[3])
+			results = append(results, opRes{w: w, j: j, kind: m[2], ok: m[4] == "ok", err: m[4], cf: cf})
 		}
 	}
 	rsl.VerifResetCache()
@@ -210,7 +238,7 @@ func runC17ProcOnce(t *testing.T, s *kit.Session, c c17ProcCase) *kit.Failure {
 	history := func() string {
 		var b strings.Builder
 		for _, r := range results {
-			fmt.Fprintf(&b, "  worker %d op %d %s: %s\n", r.w, r.j, r.kind, r.err)
+			fmt.Fprintf(&b, "  worker %d op %d %s (failed storage commits: %d): %s\n", r.w, r.j, r.kind, r.cf, r.err)
 		}
 		b.WriteString(" chain (oldest first):\n")
 		for i, e := range chain {
@@ -269,6 +297,38 @@ func runC17ProcOnce(t *testing.T, s *kit.Session, c c17ProcCase) *kit.Failure {
 		dupOnly := strings.Contains(defect, "but its parent is numbered") && c17StaleNumbersOnly(chain)
 		if !(dupOnly && s.IsKnown("C17-duplicate-number-after-double-read")) {
 			return fail("chain-invalid", "%s", defect)
+		}
+		// the listed finding is about a writer whose single storage commit succeeded
+		// on top of a tip newer than the one it numbered its entry after. An entry
+		// with a stale number written by an operation that first LOST the race for
+		// the tip (its storage commit failed) and reported success all the same has
+		// another cause.
+		owner := map[string]opRes{}
+		for _, r := range results {
+			switch r.kind {
+			case "ann":
+				owner["ann:"+c17ProcAnnMsg(r.w, r.j)] = r
+			case "ref":
+				owner["ref:"+c17ProcRefName(r.w, r.j)] = r
+			case "prop":
+				owner["pro:"+c17ProcRefName(r.w, r.j)] = r
+			}
+		}
+		for i := 1; i < len(chain); i++ {
+			e := chain[i]
+			if e.Number == chain[i-1].Number+1 {
+				continue
+			}
+			key := ""
+			switch e.Kind {
+			case "annotation":
+				key = "ann:" + decodeAnnMsg(e.Text)
+			case "reference", "propagation":
+				key = e.Kind[:3] + ":" + e.Ref
+			}
+			if r, ok := owner[key]; ok && r.cf > 0 {
+				return fail("stale-number-after-lost-race", "entry %d (%s) carries a stale number and was written by worker %d operation %d, whose storage commit failed %d time(s) before the operation reported success", i, e.ID, r.w, r.j, r.cf)
+			}
 		}
 		dupKnown = true
 		s.KnownHit("C17-duplicate-number-after-double-read", c)
